@@ -54,7 +54,9 @@ class Server(ae_mod.AE):
         inst = str(f.SOPInstanceUID)
         with self.seen_lock:
             self.seen.append({'client': str(f.PatientID), 'inst': inst, 'd': tok(raw[meta_len:]), 'ts': str(context.supported_ts),
-                              'cls': str(context.sop_class)})
+                              'cls': str(context.sop_class),
+                              'hdr': [str(f.file_meta.MediaStorageSOPInstanceUID), str(f.file_meta.MediaStorageSOPClassUID), str(f.file_meta.TransferSyntaxUID)],
+                              'hdrWant': [inst, str(f.SOPClassUID), str(context.supported_ts)]})
         return statuses.Status(0xB000 if int(inst.rsplit('.', 1)[1]) % 2 else 0x0000, dm.CStoreRSPMessage)
 
     def on_receive_find(self, context, ds):
@@ -211,6 +213,43 @@ def one_round(n, rnd, rng, tcp, shared=False):
         srv.server_close() if hasattr(srv, 'socket') else None
         with R.Net() as net:
             net.register(ADDR, srv)
+            if shared:
+                # the shared requesting entity also talks to ANOTHER peer, which refuses one of the classes it proposes:
+                # once before the round and again and again while the round runs.  What that peer refuses concerns the
+                # associations with THAT peer only.
+                limited = Server()
+                try:
+                    limited.server_close()
+                except Exception:      # noqa
+                    pass
+
+                class _OnlyCt(object):
+                    sop_classes = [CT]
+                    store_in_file = True
+
+                    def __call__(self, *a):
+                        return sc.storage_scp(*a)
+                limited.add_scp(_OnlyCt())
+                net.register(('limited.example', 104), limited)
+                lim_remote = {'aet': 'LIM', 'address': 'limited.example', 'port': 104}
+                lim_stop = threading.Event()
+                lim_rec = {'client': 'C00', 'aborted': False, 'error': '', 'negotiated': [], 'requests': [], 'extras': [],
+                           'pdus': {'maxClient': 0, 'maxServer': 0, 'fromServer': [], 'fromClient': []}}
+
+                def with_limited(once=False):
+                    while True:
+                        try:
+                            with shared_ae.request_association(lim_remote) as la:
+                                got = sorted(str(k) for k in la.sop_classes_as_scu)
+                                if got != [CT]:
+                                    lim_rec['extras'].append('the peer serving only %s accepted %r' % (CT, got))
+                        except Exception as exc:      # noqa
+                            lim_rec['extras'].append('association with the peer that refuses a class raised %s: %s' % (type(exc).__name__, exc))
+                        if once or lim_stop.wait(0.02):
+                            return
+                with_limited(once=True)
+                lim_thread = threading.Thread(target=with_limited, daemon=True)
+                lim_thread.start()
             # a peer that has connected but not (yet) sent its A-ASSOCIATE-RQ: the other associations of the entity
             # must not wait for it
             stalled, stalled_link = R.raw_client(srv)
@@ -218,6 +257,11 @@ def one_round(n, rnd, rng, tcp, shared=False):
             t0 = _time.time()
             finished = run({'aet': 'SRV', 'address': ADDR[0], 'port': ADDR[1]})
             took = _time.time() - t0
+            if shared:
+                lim_stop.set()
+                lim_thread.join(60)
+                lim_rec['extras'] = lim_rec['extras'][:3]
+                results[-1] = (lim_rec, [])
             try:
                 stalled.close()
             except OSError:
@@ -247,6 +291,7 @@ def one_round(n, rnd, rng, tcp, shared=False):
                 s = seen.get(rq['sentInst'])
                 if s:
                     rq['gotD'], rq['gotInst'], rq['gotClient'], rq['servedTs'] = s['d'], s['inst'], s['client'], s['ts']
+                    rec.setdefault('headers', []).append({'got': s['hdr'], 'want': s['hdrWant']})
                 all_sent.append({'client': rec['client'], 'inst': rq['sentInst']})
                 if not rec['aborted']:
                     sent_ok.append({'client': rec['client'], 'inst': rq['sentInst']})
@@ -262,6 +307,68 @@ def one_round(n, rnd, rng, tcp, shared=False):
     cases.append({'kind': 'global', 'g': {'sent': sent_ok, 'allSent': all_sent,
                                           'seen': [{'client': s['client'], 'inst': s['inst']} for s in srv.seen], 'threads': threads}})
     return cases, finished
+
+
+def header_stress(rnd, seconds, nthreads=6):
+    """The entity's reception path for file-backed storage (AE.get_file: what every association's provider thread
+    calls when the first fragment of a C-STORE data set arrives) called from several threads at once, each for its own
+    class / instance / negotiated syntax, with a very short thread switch interval.  One record per thread."""
+    import sys
+    import time as _t
+    from pydicom.filereader import read_preamble, _read_file_meta_info
+    srv = Server()
+    try:
+        srv.server_close()
+    except Exception:      # noqa
+        pass
+    classes = [CT, MR, '1.2.840.10008.5.1.4.1.1.7']
+    recs = {}
+    barrier = threading.Barrier(nthreads)
+    stop_at = [None]
+
+    def one(i):
+        cls, ts = classes[i % 3], TSS[(i // 2) % 3]
+        ctx = R.asceprovider.PContextDef(1 + 2 * i, pydicom.uid.UID(cls), ts)
+        rec = {'client': 'H%02d' % i, 'aborted': False, 'error': '', 'negotiated': [{'ctx': ctx.id, 'ts': str(ts), 'as': cls}], 'requests': [], 'extras': [],
+               'pdus': {'maxClient': 0, 'maxServer': 0, 'fromServer': [], 'fromClient': []}, 'headers': [], 'receptions': 0}
+        recs[i] = rec
+        try:
+            barrier.wait(20)
+        except threading.BrokenBarrierError:
+            pass
+        k = 0
+        try:
+            while _t.time() < stop_at[0] and len(rec['headers']) < 3:
+                k += 1
+                inst = '1.2.3.%d.%d.%d' % (rnd, i + 1, k)
+                cmd = pydicom.Dataset()
+                cmd.AffectedSOPClassUID = cls
+                cmd.AffectedSOPInstanceUID = inst
+                fp, start = srv.get_file(ctx, cmd)
+                try:
+                    fp.seek(0)
+                    read_preamble(fp, False)
+                    m = _read_file_meta_info(fp)
+                    got = [str(m.MediaStorageSOPInstanceUID), str(m.MediaStorageSOPClassUID), str(m.TransferSyntaxUID)]
+                finally:
+                    fp.close()
+                rec['receptions'] = k
+                if got != [inst, cls, str(ts)]:
+                    rec['headers'].append({'got': got, 'want': [inst, cls, str(ts)]})
+        except Exception as exc:      # noqa
+            rec['error'] = '%s: %s' % (type(exc).__name__, exc)
+    old = sys.getswitchinterval()
+    sys.setswitchinterval(1e-5)
+    try:
+        stop_at[0] = _t.time() + seconds
+        ths = [threading.Thread(target=one, args=(i,), daemon=True) for i in range(nthreads)]
+        for t in ths:
+            t.start()
+        for t in ths:
+            t.join(seconds + 30)
+    finally:
+        sys.setswitchinterval(old)
+    return [{'kind': 'assoc', 'a': recs[i]} for i in sorted(recs)], all(not t.is_alive() for t in ths)
 
 
 DEST_ADDR = ('dest.example', 104)
@@ -520,6 +627,12 @@ def rounds(v, plan, rng, tier):
         for c in cs:
             c['round'] = 50 + k
         cases.extend(cs)
+    cs, finished = header_stress(90, 2.0 if tier == 'quick' else 20.0)
+    if not finished:
+        v.report({'site': 'applicationentity.get_file', 'clause': 'round-did-not-finish'}, 'concurrent receptions into files did not finish')
+    for c in cs:
+        c['round'] = 90
+    cases.extend(cs)
     for k in range(1 if tier == 'quick' else 5):
         cs, finished = commitment_round(3 if tier == 'quick' else 6, 70 + k, rng)
         if not finished:
@@ -538,6 +651,9 @@ def rounds(v, plan, rng, tier):
 
 
 def finish_main(v, tier, own, shared_mc, plan, cases, n_life, lstats):
+    for c in cases:
+        if c['kind'] == 'assoc':
+            c['a'].setdefault('headers', [])
     res, stats = tlc.validate_traces('Trace_MultiAssoc', 'Trace_MultiAssoc.cfg', [[c] for c in cases], chunk=5000)
     for c, r in zip(cases, res):
         if r['reached'] != 1:
